@@ -9,23 +9,22 @@ and of the Python context); the generated Go builders are compiled and driven by
 generated Python builders are imported and driven (drivers/python_bld): default objects, the object under
 construction after the constructor and after every option call, builder.errors, Build() / raised exception.
 MISMATCH = the model's trace (evaluated inside Coq) differs from the real one.  PROPFAIL = the property itself,
-evaluated on the real output only (vlib/gencode_bld.py spec_*): exactness (frame + target), constants,
+evaluated on the real output only (vlib/gencode_bld.py spec_apply / same): exactness (frame + target), constants,
 invalid reported, valid never fails."""
+import copy
 import json
 import os
 import re
-from decimal import Decimal
 
 from gen import srcgen
 from vlib import core, gencode, gencode_bld as gb
-from vlib import c09lib
 
 COQ_TARGETS = ["Props/C09.vo", "Model/BuilderCheck.vo"]
 PROPS = "Props/C09.v"
 TRUSTED = [
     "hand-written Gallina model of the generated builder code (coq/Model/BuilderEval.v Go, PyBuilderEval.v Python) over the value model and Validate() model of coq/Model/GoSem*.v; the constructors of the generated types (New<T>(), <T>()) are an input of the model (C10's subject): the correspondence supplies what the real constructors return",
     "the fragment is explicit (BuilderEval.v header): field paths with an optional trailing string map index, argument / constant / one-level envelope values, direct / append / index, builders under arrays and string-keyed maps; composable slots, type hints, factories, builder properties are Unmodelled and skipped",
-    "harness harness/verifh_bld (Gallina + JSON printers of the IR), drivers drivers/go_bld (reflection; builder.internal and builder.errors read through unsafe), drivers/python_bld, argument generator and property evaluation vlib/gencode_bld.py, vlib/c09lib.py",
+    "harness harness/verifh_bld (Gallina + JSON printers of the IR), drivers drivers/go_bld (reflection; builder.internal and builder.errors read through unsafe), drivers/python_bld, argument generator and property evaluation vlib/gencode_bld.py",
     "numbers within 15 significant digits, integers within 2^53; datetimes in UTC; ASCII names",
 ]
 ASSUMPTIONS = [
@@ -33,6 +32,547 @@ ASSUMPTIONS = [
     "`valid never fails` is judged per argument: an error Build() reports for a field the call sequence never assigned is not attributed to the argument",
 ]
 
+FAULTS = ("bound", "elem", "alias", "nested", "nested-default")
+CAUSE = {"bound": "direct-constraint", "elem": "constraint-on-collection-element", "alias": "constraint-behind-scalar-alias",
+         "nested": "failing-nested-builder", "nested-default": "failing-nested-builder"}
 
+
+# ---------------------------------------------------------------------------------------------- schemas + veneers
+def gen_veneers(rng, schema):
+    """random option veneers for the struct definitions of a Src schema (selectors `Object.field`)"""
+    defs = {d["name"]: d["t"] for d in schema["defs"]}
+    rules = []
+    for d in schema["defs"]:
+        if d["t"]["k"] != "struct":
+            continue
+        names = {f["name"] for f in d["t"]["fields"]}
+        for f in d["t"]["fields"]:
+            sel = {"by_name": "%s.%s" % (d["name"], f["name"])}
+            t = f["t"]
+            k = t["k"]
+            c = rng.random()
+            if k in ("ref", "struct"):
+                inner = defs.get(t["name"]) if k == "ref" else t
+                if inner is None or inner["k"] != "struct":
+                    continue
+                inames = {g["name"] for g in inner["fields"]}
+                if c < 0.25 and not (inames & names):
+                    rules.append({"struct_fields_as_options": sel})
+                    names |= inames
+                elif c < 0.45:
+                    rules.append({"struct_fields_as_arguments": sel})
+            elif k == "array":
+                if c < 0.4:
+                    rules.append({"array_to_append": sel})
+                elif c < 0.5 and t["of"]["k"] in ("ref", "struct"):
+                    rules.append({"array_to_append": sel})
+                    rules.append({"struct_fields_as_arguments": sel})
+            elif k == "map":
+                if c < 0.4:
+                    rules.append({"map_to_index": sel})
+            elif k == "bool":
+                if c < 0.4:
+                    rules.append({"unfold_boolean": dict(sel, true_as="enable_" + f["name"], false_as="disable_" + f["name"])})
+            else:
+                if c < 0.08:
+                    rules.append({"rename": dict(sel, **{"as": "with_" + f["name"]})})
+                elif c < 0.14:
+                    rules.append({"duplicate": dict(sel, **{"as": "also_" + f["name"]})})
+                elif c < 0.17:
+                    rules.append({"omit": sel})
+    return rules
+
+
+def add_defaults(rng, text, fmt):
+    """scalar defaults (which the construct grammar does not carry): `default` members on string / boolean
+    (and, for OpenAPI, numeric) properties of the rendered JSON Schema / OpenAPI text"""
+    if fmt not in ("jsonschema", "openapi"):
+        return text
+    doc = srcgen.loads(text)
+
+    def walk(node):
+        if isinstance(node, dict):
+            props = node.get("properties")
+            if isinstance(props, dict):
+                for p in props.values():
+                    if not isinstance(p, dict) or "default" in p or "const" in p or "enum" in p or rng.random() > 0.3:
+                        continue
+                    ty = p.get("type")
+                    if ty == "string" and "format" not in p:
+                        n = max(int(p.get("minLength", 0)), 1)
+                        if "maxLength" in p and int(p["maxLength"]) < n:
+                            continue
+                        p["default"] = "d" * n
+                    elif ty == "boolean":
+                        p["default"] = rng.random() < 0.5
+                    elif ty == "integer" and fmt == "openapi":
+                        lo = p.get("minimum", 0)
+                        p["default"] = int(lo) + (1 if p.get("exclusiveMinimum") is True else 0)
+            for v in node.values():
+                walk(v)
+        elif isinstance(node, list):
+            for v in node:
+                walk(v)
+    walk(doc)
+    return srcgen.dumps(doc)
+
+
+# ---------------------------------------------------------------------------------------------- jobs
+class Plan:
+    """one driver job = one builder program (+ the programs of its direct nested builders)"""
+
+    def __init__(self, sid, lang, builder, calls, kind):
+        self.sid, self.lang, self.builder, self.calls, self.kind = sid, lang, builder, calls, kind
+        # calls: [{"opt": option JSON, "args": [ARG], "facts": set, "want": str}]
+        self.result = None
+        self.subs = []        # per call: list of driver results of the direct nested programs (in order)
+
+    def program(self):
+        b = self.builder
+        return {"pkg": b["For"]["SelfRef"]["ReferredPkg"], "name": b["Name"], "ctor": [],
+                "calls": [(c["opt"]["Name"], c["args"]) for c in self.calls]}
+
+    def payload(self, batch):
+        s = batch.schemas[self.sid]
+        return {"fmt": s["fmt"], "pkg": self.sid, "schema_text": s["text"], "veneers": s["veneers"], "lang": self.lang,
+                "program": gb.prog_to_json(self.program()), "kind": self.kind,
+                "wants": [c["want"] for c in self.calls]}
+
+
+def plan_builder(rng, ag, ir, sid, lang, b, thorough):
+    plans = [Plan(sid, lang, b, [], "default")]
+    if ((b.get("Constructor") or {}).get("Args")):
+        return []            # constructor arguments (promote_to_constructor) are not generated here
+    opts = b.get("Options") or []
+    for o in opts:
+        args = o.get("Args") or []
+        wants = ["valid"] + [w for w in FAULTS if any(ag.can(a["Type"], w) for a in args)]
+        if thorough:
+            wants = ["valid"] + wants
+        for w in wants:
+            try:
+                vals, facts = [], set()
+                injected = False
+                for a in args:
+                    ww = "valid"
+                    if w != "valid" and not injected and ag.can(a["Type"], w):
+                        ww = w
+                        injected = True
+                    x, f = ag.gen(a["Type"], ww)
+                    vals.append(x)
+                    facts |= f
+            except gb.Unsupported:
+                continue
+            plans.append(Plan(sid, lang, b, [{"opt": o, "args": vals, "facts": facts, "want": w}], "single"))
+    usable = [o for o in opts]
+    for _ in range(3 if thorough else 1):
+        if not usable:
+            break
+        calls = []
+        for _ in range(rng.randint(2, 5)):
+            o = rng.choice(usable)
+            try:
+                vals = []
+                for a in (o.get("Args") or []):
+                    x, f = ag.gen(a["Type"], "valid")
+                    vals.append(x)
+                calls.append({"opt": o, "args": vals, "facts": set(), "want": "valid"})
+            except gb.Unsupported:
+                continue
+        if len(calls) >= 2:
+            plans.append(Plan(sid, lang, b, calls, "sequence"))
+    return plans
+
+
+def driver_job(ir, lang, jid, prog, steps):
+    p = gb.go_prog(ir, prog) if lang == "go" else gb.py_prog(ir, prog)
+    return {"id": jid, "op": "run", "prog": p, "steps": steps}
+
+
+# ---------------------------------------------------------------------------------------------- gallina of observations
+def g_strs(l):
+    return gencode.g_list(srcgen.g_str(x) for x in l)
+
+
+def go_obs_term(r, steps):
+    states = gencode.g_list("(%s, %s)" % (gb.dump_to_gallina(s["dump"]), g_strs(s.get("errors") or [])) for s in r["states"]
+                            if s.get("dump") is not None)
+    bld = r.get("build") or {}
+    built = gb.dump_to_gallina(bld["dump"]) if bld.get("s") == "ok" else "GNil"
+    return "(mkBObs %s %s %s %s %s %s)" % ("true" if steps else "false", states, srcgen.g_str(r.get("call") or ""),
+                                            srcgen.g_str(bld.get("s") or ""), g_strs(bld.get("paths") or []), built)
+
+
+def py_obs_term(r, steps, fields_of):
+    states = gencode.g_list(gb.dump_to_gallina(s, fields_of) for s in r["states"])
+    bld = r.get("build") or {}
+    built = gb.dump_to_gallina(bld["dump"], fields_of) if bld.get("s") == "ok" else "GNil"
+    return "(mkPObs %s %s %s %s %s)" % ("true" if steps else "false", states, srcgen.g_str(r.get("call") or ""),
+                                         srcgen.g_z(int(r.get("raised_at", 0) or 0)), built)
+
+
+# ---------------------------------------------------------------------------------------------- the property on real output
+def judge(plan, ir, defaults, fields_of, verdict_cb):
+    """evaluate the property on the real output of one plan; verdict_cb(sig, detail)"""
+    r = plan.result
+    lang = plan.lang
+    if r is None or r.get("error") or not r.get("known"):
+        return
+    go = lang == "go"
+    states = [(gb.plain(s["dump"], None) if go else gb.plain(s, fields_of)) for s in r["states"]
+              if (s.get("dump") is not None if go else True)]
+    clean = all(not c["facts"] for c in plan.calls)
+    nested_failed = False
+    for subs in plan.subs:
+        for sr in subs:
+            if sr is None:
+                nested_failed = True
+            elif go and (sr.get("build") or {}).get("s") != "ok":
+                nested_failed = True
+            elif not go and sr.get("call") != "ok":
+                nested_failed = True
+    ok_call = r.get("call") == "ok"
+    bld = r.get("build") or {}
+    # ---- constants
+    for asg in (plan.builder.get("Constructor") or {}).get("Assignments") or []:
+        if asg["Value"].get("Constant") is None:
+            continue
+        names = [it["Identifier"] for it in asg["Path"]]
+        touched = any(p.split(".")[0] == names[0] for c in plan.calls for p in gb.assigned_prefixes(c["opt"]))
+        if touched:
+            continue
+        for st in states:
+            cur = st
+            for n in names:
+                cur = cur.get(n) if isinstance(cur, dict) else None
+            if not gb.same(cur, asg["Value"]["Constant"]):
+                verdict_cb({"lang": lang, "law": "constants_present", "cause": "constant-missing"},
+                           "constant %r at %s, observed %r" % (asg["Value"]["Constant"], ".".join(names), cur))
+                break
+    faulty = (not clean) or nested_failed
+    if not faulty:
+        # ---- valid never fails
+        if not ok_call:
+            verdict_cb({"lang": lang, "law": "valid_never_fails", "cause": "option-call-" + ("panics" if go else "raises")},
+                       "call %s on valid arguments (raised %s)" % (r.get("call"), r.get("raised")))
+            return
+        if go:
+            if bld.get("s") == "panic":
+                verdict_cb({"lang": lang, "law": "valid_never_fails", "cause": "build-panics"}, "Build() panics")
+            elif bld.get("s") == "err":
+                pre = [p for c in plan.calls for p in gb.assigned_prefixes(c["opt"])]
+                blamed = [p for p in bld.get("paths") or [] if any(gb.path_under(p, q) for q in pre)]
+                if blamed:
+                    verdict_cb({"lang": lang, "law": "valid_never_fails", "cause": "error-at-assigned-path"},
+                               "Build() reports %r for valid arguments" % blamed)
+        # ---- exactness, step by step
+        have_steps = plan.kind == "sequence" or len(plan.calls) <= 1
+        if have_steps and len(states) == len(plan.calls) + 1:
+            for k, c in enumerate(plan.calls):
+                try:
+                    it = iter(plan.subs[k])
+                    argvals = {}
+                    for a, x in zip(c["opt"].get("Args") or [], c["args"]):
+                        argvals[a["Name"]] = gb._resolve_dumps(gb.arg_expected(x, it), fields_of if not go else None)
+                    want = gb.spec_apply(ir, states[k], c["opt"], argvals, defaults)
+                except gb.SpecSkip:
+                    continue
+                if not gb.same(want, states[k + 1]):
+                    diff = first_diff(want, states[k + 1])
+                    verdict_cb({"lang": lang, "law": "option_sets_exactly_target", "cause": classify_exact(c["opt"], diff)},
+                               "call %d (%s): expected vs observed differ at %s" % (k, c["opt"]["Name"], diff))
+                    break
+    else:
+        # ---- invalid reported (single-call plans with an injected fault, or a nested builder seen failing)
+        facts = set().union(*[c["facts"] for c in plan.calls]) if plan.calls else set()
+        want = plan.calls[0]["want"] if plan.calls else "valid"
+        cause = CAUSE.get(want, "failing-nested-builder") if facts else "failing-nested-builder"
+        if go:
+            reported = (not ok_call) or bld.get("s") in ("err", "panic")
+            if nested_failed and not (facts - {"nested"}):
+                cause = "failing-nested-builder"
+            if not reported and (facts or nested_failed):
+                verdict_cb({"lang": lang, "law": "invalid_reported", "cause": cause},
+                           "Build() returns no error (builder.errors = %r)" % (r["states"][-1].get("errors") if r["states"] else None))
+        else:
+            must = facts & {"bound", "elem", "alias", "nested"}
+            if must and ok_call:
+                verdict_cb({"lang": lang, "law": "invalid_reported", "cause": cause}, "no exception raised")
+
+
+def first_diff(a, b, path=""):
+    if isinstance(a, gb.Env):
+        for k, v in a.fields.items():
+            if not gb.same(v, (b or {}).get(k) if isinstance(b, dict) else None):
+                return first_diff(v, b.get(k) if isinstance(b, dict) else None, path + "." + k)
+        return path
+    if isinstance(a, dict) and isinstance(b, dict):
+        for k in sorted(set(a) | set(b)):
+            if not gb.same(a.get(k), b.get(k)):
+                return first_diff(a.get(k), b.get(k), (path + "." + k) if path else k)
+    if isinstance(a, list) and isinstance(b, list) and len(a) == len(b):
+        for i, (x, y) in enumerate(zip(a, b)):
+            if not gb.same(x, y):
+                return first_diff(x, y, "%s[%d]" % (path, i))
+    return "%s: expected %s observed %s" % (path, srcgen_repr(a), srcgen_repr(b))
+
+
+def srcgen_repr(v):
+    try:
+        return json.dumps(v, default=str)[:160]
+    except Exception:
+        return repr(v)[:160]
+
+
+def classify_exact(opt, diff):
+    pre = gb.assigned_prefixes(opt)
+    where = diff.split(":")[0]
+    bare = re.sub(r"\[[^\]]*\]", "", where)
+    if any(bare == p or bare.startswith(p + ".") or p.startswith(bare + ".") for p in pre):
+        return "target-value"
+    return "frame"
+
+
+# ---------------------------------------------------------------------------------------------- run
 def run(ctx, verdict, replay=None, model_ok=True):
-    return c09lib.run(ctx, verdict, replay=replay, model_ok=model_ok)
+    rng = ctx.rng
+    thorough = ctx.tier == "thorough"
+    extra = os.environ.get("VERIF_EXTRA_KNOWN")
+    if extra and os.path.exists(extra):
+        verdict.findings = verdict.findings + json.load(open(extra)).get("findings", [])
+    batch = gb.BldBatch(ctx, "c09")
+    replay_plans = []
+    if replay:
+        rp = json.load(open(replay))
+        job = rp.get("job") or rp["first_mismatch"]["job"]
+        batch.add({"pkg": job["pkg"], "root": "Root", "defs": []}, job["fmt"], veneers=job["veneers"], text=job["schema_text"])
+        replay_plans.append(job)
+    else:
+        n = 120 if thorough else 10
+        k = 0
+        for fmt in srcgen.FORMATS:
+            for _ in range(n):
+                s = srcgen.SrcGen(rng, max_depth=4 if thorough else 3, fmt=fmt).schema("s%03d" % k)
+                k += 1
+                text = add_defaults(rng, srcgen.render(s, fmt), fmt)
+                batch.add(s, fmt, veneers=gen_veneers(rng, s) if rng.random() < 0.75 else None, text=text)
+    batch.generate()
+    batch.build_go_driver()
+    gen_hist = {}
+    for sid, g in batch.gen.items():
+        key = batch.schemas[sid]["fmt"] + ":" + (g["status"] if g["status"] == "OK" else g["status"] + "@" + g.get("stage", ""))
+        gen_hist[key] = gen_hist.get(key, 0) + 1
+    ctx.log("cog ran on %d schemas: %s; %d Go packages do not compile, %d needed an unused import removed"
+            % (len(batch.schemas), gen_hist, len(batch.compile_errors), len(batch.import_fixups)))
+
+    # ---- defaults of every struct object, per language
+    irs, defaults_g, defaults_p, fields_of, djobs = {}, {}, {}, {}, {"go": [], "python": []}
+    gen_ok = [s for s in batch.schemas if batch.gen[s]["status"] == "OK"]
+    for sid in gen_ok:
+        for lang in ("go", "python"):
+            if lang == "go" and sid in batch.compile_errors:
+                continue
+            lo = batch.lang(sid, lang)
+            irs[(sid, lang)] = gb.IR(lo)
+            for o in lo["objects"]:
+                if o["kind"] == "struct":
+                    key = "%s.%s" % (o["gopkg"] if lang == "go" else o["pkg"].lower(), o["go"])
+                    djobs[lang].append({"id": "%s|%s|%s" % (sid, o["pkg"], o["name"]), "op": "default", "t": key, "sid": sid})
+    dres = {"go": batch.run_go(djobs["go"]), "python": batch.run_py(djobs["python"])}
+    for lang in ("go", "python"):
+        for j, r in zip(djobs[lang], dres[lang]):
+            sid, pkg, name = j["id"].split("|")
+            if r is None or not r.get("known") or r.get("call") != "ok":
+                continue
+            fo = fields_of.setdefault((sid, lang), {})
+            if lang == "python":
+                summ = irs[(sid, lang)].summary[(pkg, name)]
+                fo[summ["go"]] = summ["fields"] or []
+    for lang in ("go", "python"):
+        for j, r in zip(djobs[lang], dres[lang]):
+            sid, pkg, name = j["id"].split("|")
+            if r is None or not r.get("known") or r.get("call") != "ok":
+                continue
+            fo = fields_of.get((sid, lang)) if lang == "python" else None
+            defaults_g.setdefault((sid, lang), []).append((pkg, name, gb.dump_to_gallina(r["dump"], fo)))
+            defaults_p.setdefault((sid, lang), {})[(pkg, name)] = gb.plain(r["dump"], fo)
+
+    # ---- plans
+    plans = []
+    if replay:
+        for job in replay_plans:
+            lang = job["lang"]
+            ir = irs.get((job["pkg"], lang))
+            if ir is None:
+                continue
+            prog = gb.prog_from_json(job["program"])
+            b = ir.builder(prog["pkg"], prog["name"])
+            if b is None:
+                continue
+            calls = []
+            for (on, args), w in zip(prog["calls"], job.get("wants") or ["valid"] * len(prog["calls"])):
+                o = next((x for x in (b.get("Options") or []) if x["Name"] == on), None)
+                if o is None:
+                    calls = None
+                    break
+                calls.append({"opt": o, "args": args, "facts": set() if w == "valid" else {w if w in ("bound", "elem", "alias") else "nested"},
+                              "want": w})
+            if calls is not None:
+                plans.append(Plan(job["pkg"], lang, b, calls, job.get("kind", "single")))
+    else:
+        cap = 90 if thorough else 45
+        for (sid, lang), ir in sorted(irs.items()):
+            ag = gb.ArgGen(rng, ir, lang)
+            mine = []
+            for b in ir.builders:
+                try:
+                    mine += plan_builder(rng, ag, ir, sid, lang, b, thorough)
+                except gb.Unsupported:
+                    continue
+            if len(mine) > cap:
+                keep = [p for p in mine if p.kind != "single"]
+                singles = [p for p in mine if p.kind == "single"]
+                rng.shuffle(singles)
+                mine = keep[:cap // 3] + singles[:cap - min(len(keep), cap // 3)]
+            plans += mine
+    # ---- driver jobs (main + direct nested programs)
+    jobs = {"go": [], "python": []}
+    index = {"go": [], "python": []}
+    for pi, p in enumerate(plans):
+        ir = irs[(p.sid, p.lang)]
+        jobs[p.lang].append(dict(driver_job(ir, p.lang, "p%d" % pi, p.program(), True), sid=p.sid))
+        index[p.lang].append((pi, None, None))
+        p.subs = [[] for _ in p.calls]
+        for ci, c in enumerate(p.calls):
+            for a in c["args"]:
+                for np_ in gb.nested_progs(a):
+                    jobs[p.lang].append(dict(driver_job(ir, p.lang, "p%d/%d" % (pi, ci), np_, False), sid=p.sid))
+                    index[p.lang].append((pi, ci, len(p.subs[ci])))
+                    p.subs[ci].append(None)
+    results = {"go": batch.run_go(jobs["go"]), "python": batch.run_py(jobs["python"])}
+    for lang in ("go", "python"):
+        for (pi, ci, si), r in zip(index[lang], results[lang]):
+            if ci is None:
+                plans[pi].result = r
+            else:
+                plans[pi].subs[ci][si] = r
+    live = [i for i, p in enumerate(plans) if p.result is not None and p.result.get("known") and not p.result.get("error")]
+    dead = [i for i, p in enumerate(plans) if p.result is None]
+    errs = [i for i, p in enumerate(plans) if p.result is not None and p.result.get("error")]
+    ctx.log("drivers ran %d programs (%d Go, %d Python incl. nested): %d usable, %d killed the driver, %d not executable (%s)"
+            % (len(plans), len(jobs["go"]), len(jobs["python"]), len(live), len(dead), len(errs),
+               "; ".join(sorted({plans[i].result["error"][:60] for i in errs})[:3])))
+
+    # ---- the model, inside Coq
+    env_defs, cases_go, cases_py, idx_go, idx_py = {}, [], [], [], []
+    for i in live:
+        p = plans[i]
+        key = "%s_%s" % (p.sid, p.lang)
+        if key not in env_defs:
+            env_defs[key] = gb.env_def(p.sid, p.lang, batch.lang(p.sid, p.lang), defaults_g.get((p.sid, p.lang), []))
+        prog = p.program()
+        head = "(env_%s, (%s, %s), [], %s, " % (key, srcgen.g_str(prog["pkg"]), srcgen.g_str(prog["name"]), gb.gallina_calls(prog["calls"]))
+        if p.lang == "go":
+            cases_go.append((key, head + go_obs_term(p.result, True) + ")"))
+            idx_go.append(i)
+        else:
+            cases_py.append((key, head + py_obs_term(p.result, True, fields_of.get((p.sid, "python"))) + ")"))
+            idx_py.append(i)
+    ev_go = gb.eval_cases(ctx, "cases_C09_go", "Model.BuilderCheck", env_defs, cases_go, "bcase",
+                          [("UNM", "go_case_unmodelled"), ("MM_STATES", "go_mm_states"), ("MM_BUILD", "go_mm_build")]) if cases_go else \
+        {"UNM": [], "MM_STATES": [], "MM_BUILD": []}
+    ev_py = gb.eval_cases(ctx, "cases_C09_py", "Model.BuilderCheck", env_defs, cases_py, "pcase",
+                          [("UNM", "py_case_unmodelled"), ("MM", "py_mm")]) if cases_py else {"UNM": [], "MM": []}
+    ctx.log("coq evaluated %d Go cases (%s) and %d Python cases (%s)"
+            % (len(cases_go), " ".join("%s=%d" % (k, len(v)) for k, v in ev_go.items()),
+               len(cases_py), " ".join("%s=%d" % (k, len(v)) for k, v in ev_py.items())))
+    mm = sorted({idx_go[x] for x in ev_go["MM_STATES"] + ev_go["MM_BUILD"]} | {idx_py[x] for x in ev_py["MM"]})
+    unm = {idx_go[x] for x in ev_go["UNM"]} | {idx_py[x] for x in ev_py["UNM"]}
+
+    # ---- the property, on the real output
+    pf = {}
+    budget = [40]
+
+    def report(i):
+        def cb(sig, detail):
+            pf.setdefault(json.dumps(sig, sort_keys=True), []).append(i)
+            if budget[0] > 0:
+                p = plans[i]
+                st = verdict.propfail(sig, {"job": p.payload(batch), "observed": trim(p.result), "detail": detail,
+                                            "predicate": "vlib/gencode_bld.py spec_apply/same (exactness), Build()/raise outcome (reporting)"})
+                if st == "violation":
+                    budget[0] -= 1
+        return cb
+    order = sorted(live, key=lambda i: len(json.dumps(plans[i].payload(batch)["program"])))
+    for i in order:
+        p = plans[i]
+        judge(p, irs[(p.sid, p.lang)], defaults_p.get((p.sid, p.lang), {}), fields_of.get((p.sid, p.lang)), report(i))
+    for i in dead[:3]:
+        verdict.propfail({"lang": plans[i].lang, "law": "valid_never_fails", "cause": "driver-process-died"},
+                         {"job": plans[i].payload(batch), "observed": "driver process died or timed out"})
+    explained = {i for v in pf.values() for i in v}
+    unexplained = [{"job": plans[i].payload(batch), "observed": trim(plans[i].result),
+                    "which": [k for k, ix, ev in (("MM_STATES", idx_go, ev_go), ("MM_BUILD", idx_go, ev_go), ("MM", idx_py, ev_py))
+                              if k in ev and i in {ix[x] for x in ev[k]}]} for i in mm][:20]
+
+    # ---- coverage
+    distinct, nontriv = set(), 0
+    kinds, wants, shapes, outcomes = {}, {}, {}, {}
+    for i in live:
+        p = plans[i]
+        kinds[p.lang + ":" + p.kind] = kinds.get(p.lang + ":" + p.kind, 0) + 1
+        for c in p.calls:
+            wants[p.lang + ":" + c["want"]] = wants.get(p.lang + ":" + c["want"], 0) + 1
+            for asg in c["opt"].get("Assignments") or []:
+                shape = "%s/len%d%s%s%s" % (asg["Method"], len(asg["Path"]), "/nilchecks" if asg.get("NilChecks") else "",
+                                            "/envelope" if asg["Value"].get("Envelope") else "",
+                                            "/constant" if asg["Value"].get("Constant") is not None else "")
+                shapes[shape] = shapes.get(shape, 0) + 1
+        r = p.result
+        oc = (r.get("call") or "") + "/" + ((r.get("build") or {}).get("s") or "")
+        outcomes[p.lang + ":" + oc] = outcomes.get(p.lang + ":" + oc, 0) + 1
+        h = core.canon_hash([p.sid, p.lang, p.payload(batch)["program"]])
+        if h in distinct or i in unm:
+            continue
+        distinct.add(h)
+        if p.calls and len(p.builder.get("Options") or []) >= 2:
+            nontriv += 1
+    samples = []
+    for i in [x for x in live if plans[x].kind == "single"][:2] + [x for x in live if plans[x].kind == "sequence"][:1]:
+        p = plans[i]
+        samples.append({"lang": p.lang, "format": batch.schemas[p.sid]["fmt"], "veneers": batch.schemas[p.sid]["veneers"][:4],
+                        "program": p.payload(batch)["program"], "call": p.result.get("call"), "build": (p.result.get("build") or {}).get("s"),
+                        "last_state_json": (p.result["states"][-1].get("json") if p.lang == "go" and p.result["states"] else None)})
+    cov = {
+        "evaluations": len(live),
+        "distinct_nontrivial": nontriv,
+        "rule": "one evaluation = one builder program run against the real generated builder (Go or Python) with the object under construction observed after the constructor and after every call, builder.errors, and Build() / the raised exception; distinct by hash of (schema, language, program); non-trivial = at least one option call on a builder with >= 2 options; unmodelled cases are not counted",
+        "samples": samples,
+        "schemas": len(batch.schemas),
+        "cog_outcomes_by_format": gen_hist,
+        "go_packages_not_compiling": len(batch.compile_errors),
+        "go_compile_error_samples": [v.split("\n")[0][:200] for v in list(batch.compile_errors.values())[:3]],
+        "nested_programs_run_alone": len(jobs["go"]) + len(jobs["python"]) - len(plans),
+        "default_objects_observed": sum(len(v) for v in defaults_p.values()),
+        "program_kind_histogram": kinds,
+        "argument_kind_histogram": wants,
+        "assignment_shape_histogram": shapes,
+        "outcome_histogram": outcomes,
+        "unmodelled_cases": len(unm),
+        "mismatches_model_vs_impl": {"go_states": len(ev_go["MM_STATES"]), "go_build": len(ev_go["MM_BUILD"]), "python": len(ev_py["MM"])},
+        "propfails_on_impl": {k: len(v) for k, v in pf.items()},
+        "cases_validated_against_impl": len(live) - len(unm) - len(mm),
+    }
+    return {"coverage": cov, "unexplained_mismatches": [u for u in unexplained if True] if not all(
+        i in explained for i in mm) else [u for i, u in zip(mm, unexplained) if i not in explained],
+            "search_note": "generated schemas x veneers x (every option x valid / constraint-violating / failing-nested arguments, random call sequences) on the real Go and Python builders"}
+
+
+def trim(r):
+    if r is None:
+        return None
+    out = {k: v for k, v in r.items() if k != "states"}
+    sts = r.get("states") or []
+    out["states_json"] = [(s.get("json") if isinstance(s, dict) and "json" in s else s) for s in sts][-2:]
+    out["errors"] = [s.get("errors") for s in sts if isinstance(s, dict) and "errors" in s][-1:]
+    return json.loads(json.dumps(out, default=str))
